@@ -18,7 +18,7 @@ EXPLANATION = (
     "error into a success are the tabled EOF conversions (C14.R1b)."
     " R1 also covers the eager BCF reader (genuine defect F25, repaired; the site had been mis-triaged as safe in the error-to-success table); (R6) the bgzf read_nonempty_block_with returns a nonzero length only for a block read by that call, so the direct-read path cannot report bytes it did not produce at the end of a stream without EOF block (genuine defect F26, repaired)."
     " (R7) a truncated text stream ends the scan: every loop around fill_buf has an exit edge controlled by the emptiness of the window."
-    " (R8) a read error inside an iterator chain reaches the caller: no Result is consumed as an iterator (flat_map over a Result, Result::into_iter), which would turn a cut-off list into a shorter list and Ok.")
+    " (R8) a read error inside an iterator chain reaches the caller: no Result is consumed as an iterator (flat_map over a Result, Result::into_iter), which would turn a cut-off list into a shorter list and Ok. (R9) the read_exact contract: every success exit of a hand-written read_exact (BGZF reader, multithreaded reader, default_read_exact) passes a whole-buffer test on the destination or a read_exact delegation.")
 ASSUMPTIONS = ["read_exact reports UnexpectedEof on a short source (std/tokio contract)",
                "the 'never panics' clause is C15's inventory restricted to these readers"]
 NOT_DECIDED = ["that the records yielded before the error equal the originally written prefix (needs values)",
@@ -209,3 +209,8 @@ def run(ctx):
         else:
             ctx.violation("C13.R5", "C13.R5/err-swallowed/" + s["fn"],
                           "%s turns an io::Error into a success path: a truncated stream could read as a clean end" % s["fn"], f.loc(s["block"]))
+
+    ctx.rule("C13.R9", "read_exact contract: every success exit of a hand-written read_exact (BGZF reader, multithreaded reader, "
+                       "default_read_exact) is reached only through a test that the WHOLE buffer was filled or a read_exact delegation; "
+                       "'at least one byte' is the contract of read, and at the end of a cut file it reports a partly filled buffer as read")
+    a5.read_exact_contract_rule(ctx, "C13.R9", 3)
